@@ -174,18 +174,20 @@ Definition proof_power (pows : list N) (p : proof) : N := idx_power pows (proof_
 
 Definition bytes_min (a b : bytes) : bytes := if bytes_ltb b a then b else a.
 
-(** One pass of SetPrevotePowers / SetPrecommitPowers: (total, block powers, most voted, max power). *)
+(** One pass of SetPrevotePowers / SetPrecommitPowers: (total, block powers, most voted).
+    The total is taken over the union of the signer sets, so a validator that signed several
+    targets counts once. *)
 Definition set_powers (pows : list N) (pm : pmap) : N * list (bytes * N) * bytes :=
-  let '(tot, blocks, maxh, maxp) :=
+  let '(present, blocks, maxh, maxp) :=
     fold_left (fun acc e =>
-      let '(tot, blocks, maxh, maxp) := acc in
+      let '(present, blocks, maxh, maxp) := acc in
       let bp := proof_power pows (snd e) in
-      let tot' := wrap64 (tot + bp) in
+      let present' := present ++ map fst (snd e) in
       let blocks' := pm_set blocks (fst e) bp in
-      if bp =? maxp then (tot', blocks', bytes_min maxh (fst e), maxp)
-      else if maxp <? bp then (tot', blocks', fst e, bp)
-      else (tot', blocks', maxh, maxp)) pm (0, [], [], 0) in
-  (tot, blocks, maxh).
+      if bp =? maxp then (present', blocks', bytes_min maxh (fst e), maxp)
+      else if maxp <? bp then (present', blocks', fst e, bp)
+      else (present', blocks', maxh, maxp)) pm ([], [], [], 0) in
+  (idx_power pows (sort_n (nodup_n present)), blocks, maxh).
 
 Definition sum_set_prevotes (s : summary) (pows : list N) (pm : pmap) : summary :=
   let '(t, b, m) := set_powers pows pm in
